@@ -314,7 +314,7 @@ class DataFormat(object):
 
         name = name.replace(" ", "_")
         property_attribute_name = "_" + name
-        if property_attribute_name not in self.__dict__:
+        if (property_attribute_name not in self.__dict__) or (name in ("format", "is_valid")):
             valid_property_names = _tools.human_readable_list(list(self.__dict__.keys()))
             raise errors.InterfaceError(
                 "data format property %s for format %s is %s but must be one of %s"
